@@ -641,6 +641,67 @@ fn run_alias(kind: usize, m: usize, out: &mut JobOut) {
     }
 }
 
+/// Data that is a broadcast view (stride 0 along a lane axis): the same logical contents as an owned
+/// array whose lanes are copies of each other; per-lane boundary conditions differ.
+fn run_broadcast(n: usize, lanes: usize, out: &mut JobOut) {
+    use ndarray::{Array1 as A1, Array2 as A2};
+    let x: A1<f64> = (0..n).map(|i| [0.0, 0.1, 0.5, 1.7, 2.0, 3.3, 4.1][i]).collect();
+    let base: A1<f64> = (0..n).map(|i| ((i * 7) as f64 * 0.37).sin() * 3.0 + i as f64 * 0.125).collect();
+    let col = base.view().insert_axis(Axis(1));
+    let bview = col.broadcast((n, lanes)).expect("broadcast");
+    let owned: A2<f64> = bview.to_owned();
+    let q: A1<f64> = (0..9).map(|k| x[0] + (x[n - 1] - x[0]) * k as f64 / 8.0).collect();
+    let rows = A2::from_shape_fn((1, lanes), |(_, j)| match j % 4 {
+        0 => RowBoundary::Natural,
+        1 => RowBoundary::Mixed { left: SingleBoundary::FirstDeriv(0.5), right: SingleBoundary::NotAKnot },
+        2 => RowBoundary::Clamped,
+        _ => RowBoundary::Mixed { left: SingleBoundary::Natural, right: SingleBoundary::SecondDeriv(-2.0) },
+    });
+    let key = format!("broadcast:n{n}:lanes{lanes}");
+    macro_rules! cmp {
+        ($name:expr, $strat:expr) => {{
+            let a = catch(|| Interp1DBuilder::new(bview.clone()).x(x.view()).strategy($strat).build().map(|ip| ip.interp_array(&q)));
+            let b = catch(|| Interp1DBuilder::new(owned.view()).x(x.view()).strategy($strat).build().map(|ip| ip.interp_array(&q)));
+            out.evals += 1;
+            out.nontrivial += 1;
+            out.transitions += 2;
+            let show = |r: &Result<Result<Result<A2<f64>, InterpolateError>, ndarray_interp::BuilderError>, String>| match r {
+                Ok(Ok(Ok(v))) => obs_arr(&v.clone().into_dyn()),
+                Ok(Ok(Err(e))) => Obs::Err(e.to_string()),
+                Ok(Err(e)) => Obs::Err(e.to_string()),
+                Err(p) => Obs::Panic(p.clone()),
+            };
+            let (oa, ob) = (show(&a), show(&b));
+            out.outcome(if oa == ob { "broadcast:bit-identical" } else { "broadcast:differs" });
+            if oa != ob || !matches!(ob, Obs::Ok(..)) {
+                out.violate(format!("{key}:{}", $name), format!("{} over data that is a stride-0 broadcast view ({n} x {lanes}) differs from the same call on an owned copy: {oa:?} instead of {ob:?}", $name), Json::str($name));
+            }
+        }};
+    }
+    cmp!("Linear", Linear::new());
+    cmp!("CubicSpline/NotAKnot", CubicSpline::new());
+    cmp!("CubicSpline/Individual", CubicSpline::new().boundary(BoundaryCondition::Individual(rows.clone())));
+    cmp!("CubicSpline/Individual+extrapolate", CubicSpline::new().extrapolate(true).boundary(BoundaryCondition::Individual(rows.clone())));
+    // 2-D: data broadcast along the lane axis
+    let y: A1<f64> = A1::from(vec![-1.0, 0.3, 0.9]);
+    let base2 = A2::from_shape_fn((n, 3), |(i, j)| ((i * 3 + j) as f64 * 0.37).sin() * 3.0);
+    let col2 = base2.view().insert_axis(Axis(2));
+    let b3 = col2.broadcast((n, 3, lanes)).expect("broadcast");
+    let o3 = b3.to_owned();
+    let qy: A1<f64> = (0..9).map(|k| -1.0 + 1.9 * k as f64 / 8.0).collect();
+    let a = catch(|| Interp2DBuilder::new(b3.clone()).x(x.view()).y(y.view()).build().map(|ip| ip.interp_array(&q, &qy).map(|v| v.into_dyn())));
+    let b = catch(|| Interp2DBuilder::new(o3.view()).x(x.view()).y(y.view()).build().map(|ip| ip.interp_array(&q, &qy).map(|v| v.into_dyn())));
+    out.evals += 1;
+    out.nontrivial += 1;
+    let same = match (&a, &b) {
+        (Ok(Ok(Ok(u))), Ok(Ok(Ok(v)))) => obs_arr(u) == obs_arr(v),
+        _ => false,
+    };
+    if !same {
+        out.violate(format!("{key}:Bilinear"), "Bilinear over data that is a stride-0 broadcast view differs from the same call on an owned copy".to_string(), Json::Null);
+    }
+}
+
 fn body(ctx: &Ctx) -> (Summary, Meta) {
     // the full layout alphabet costs well under a second: both tiers use it; the thorough tier adds a
     // second family of data shapes
@@ -694,6 +755,12 @@ fn body(ctx: &Ctx) -> (Summary, Meta) {
         run(j, full, &mut out);
         out
     });
+    let bc_jobs: Vec<(usize, usize)> = [(3usize, 2usize), (4, 2), (4, 3), (5, 4), (7, 5)].to_vec();
+    sum.merge(run_jobs(ctx, "broadcast-data", &bc_jobs, |j| format!("broadcast:n{}:lanes{}", j.0, j.1), |j| {
+        let mut out = JobOut::default();
+        run_broadcast(j.0, j.1, &mut out);
+        out
+    }));
     let alias_jobs: Vec<(usize, usize)> = (0..3).flat_map(|k| (2..=6).map(move |m| (k, m))).collect();
     sum.merge(run_jobs(ctx, "aliasing", &alias_jobs, |j| format!("alias:kind{}:m{}", j.0, j.1), |j| {
         let mut out = JobOut::default();
@@ -701,7 +768,7 @@ fn body(ctx: &Ctx) -> (Summary, Meta) {
         out
     }));
     let meta = Meta {
-        rule: "for every (strategy, data rank 1..4, query rank 0..3 / dynamic, static-or-dynamic instantiation) the four call forms {interp, interp_into, interp_array, interp_array_into} are run once with all arguments as owned C-order arrays (reference) and then with each argument (data, x, y, query xs, query ys, output buffer, boundary array) independently in every layout of the alphabet {F order, every 2nd (3rd) element of a larger poisoned array, reversed along an axis (negative stride), permuted axes storage; buffers also as reversed windows}, and with the full product over a 3-layout core {C, F, reversed+strided} of (data, x, query, buffer). For Linear and Bilinear every job is repeated with a query holding two different out-of-range values: the error (which names the first offending value in logical order) and the partially filled buffer must not depend on the layouts either. Oracle: bit-identical to the reference; correctly shaped buffers accepted; memory outside strided buffers untouched. Non-trivial = at least one argument not in C order. Aliasing phase: Interp2D whose x and y axes are views into one allocation starting at the same element (column/row of one table; forward/backward slice of one vector; the same view twice), 2..6 points, every query pair over the knots and interior points (diagonal included), batch queries that are the axes themselves or views of one array, and Interp1D whose axis is a column of its data - each compared bit for bit with the same call on owned copies.".into(),
+        rule: "for every (strategy, data rank 1..4, query rank 0..3 / dynamic, static-or-dynamic instantiation) the four call forms {interp, interp_into, interp_array, interp_array_into} are run once with all arguments as owned C-order arrays (reference) and then with each argument (data, x, y, query xs, query ys, output buffer, boundary array) independently in every layout of the alphabet {F order, every 2nd (3rd) element of a larger poisoned array, reversed along an axis (negative stride), permuted axes storage; buffers also as reversed windows}, and with the full product over a 3-layout core {C, F, reversed+strided} of (data, x, query, buffer). For Linear and Bilinear every job is repeated with a query holding two different out-of-range values: the error (which names the first offending value in logical order) and the partially filled buffer must not depend on the layouts either. Oracle: bit-identical to the reference; correctly shaped buffers accepted; memory outside strided buffers untouched. Non-trivial = at least one argument not in C order. Broadcast phase: data that is a stride-0 broadcast view along the lane axis (Linear, CubicSpline with whole-data-set and with per-lane boundary conditions, Bilinear) against an owned copy. Aliasing phase: Interp2D whose x and y axes are views into one allocation starting at the same element (column/row of one table; forward/backward slice of one vector; the same view twice), 2..6 points, every query pair over the knots and interior points (diagonal included), batch queries that are the axes themselves or views of one array, and Interp1D whose axis is a column of its data - each compared bit for bit with the same call on owned copies.".into(),
         bounds: format!("{njobs} instantiation jobs; tier {}", ctx.tier.name()),
         assumptions: vec!["all layouts are realised as owned arrays / mutable views with unusual strides; ownership kinds (view, shared) are covered by C19".into()],
         extra: vec![],
